@@ -145,6 +145,8 @@ impl SearchBed {
         cfg.read_only = opts.read_only;
         cfg.announce_port = opts.announce_port;
         cfg.nodes = contacts;
+        // injected scheduling points in the node's sends (see simnet)
+        net.set_send_yield(*[0.0, 0.0, 0.3, 1.0].choose(rng).unwrap());
         let dht = spawn_node(&net, &cfg);
         let bootstrapped = tokio::time::timeout(Duration::from_secs(300), dht.bootstrapped())
             .await
